@@ -128,6 +128,12 @@ def gen(rng: random.Random, tier: str):
         size = rng.randint(8, 40)
         shape = core.random_shape(rng, size)
         spec = spec_from_shape(shape)
+        if rng.random() < 0.3:
+            # user attributes called like read-only node properties (instance dict): the depth gate is about the real depth
+            def deco(t):
+                a = {rng.choice(["depth", "max_depth"]): rng.choice([0, 1, 2, 9])} if rng.random() < 0.5 else {}
+                return (t[0], a, [deco(c) for c in t[2]])
+            spec = deco(spec)
         depth = core.shape_depth(shape)
         for kind in KINDS:
             start = rng.choice([0, 0, rng.randrange(size)])
